@@ -327,6 +327,7 @@ func main() {
 	var tot shardResult
 	allOutcomes := map[string]bool{}
 	var perScenario []string
+	r.JobName = func(j int) string { return fmt.Sprintf("scenario %v", scs[j]) }
 	r.Sharded(len(scs), func(job int) any { return explore(r, scs[job]) }, func(job int, raw json.RawMessage) {
 		var sr shardResult
 		if err := json.Unmarshal(raw, &sr); err != nil {
